@@ -7,6 +7,10 @@ package main
 
 import (
 	"fmt"
+	"github.com/goghcrow/yae/conv"
+	"github.com/goghcrow/yae/interp"
+	"reflect"
+	"strconv"
 	"strings"
 
 	yae "github.com/goghcrow/yae"
@@ -181,4 +185,143 @@ func runC10(r *Run) {
 		}
 	}
 	r.Notes = append(r.Notes, fmt.Sprintf("%d distinct sugared/explicit pairs evaluated through yae.Eval", len(seen)))
+
+	// one parsed tree used twice: compiling it (desugar + check + back end) must leave it as the parser built it, and a
+	// second compilation of the SAME tree under another environment must give what a fresh parse gives
+	envA := map[string]interface{}{"x": []float64{1, 2, 3}, "n": 5.0, "c": true, "s": "héllo"}
+	envB := map[string]interface{}{"x": "abcde", "n": 2.0, "c": false, "s": "z"}
+	envC := map[string]interface{}{"x": map[string]float64{"a": 1}, "n": 2.0, "c": false, "s": "z"}
+	for _, src := range []string{`len(x)`, `x.len()`, `len(x) + n`, `max(n, abs(n))`, `if(c, n, 0 - n)`, `c ? n : 0 - n`, `n > 1 ? n : 0 - n`, `string(x) + s`, `get(x, 0, 0)`, `s + s`, `-n`, `(n)`, `n + n * n`,
+		`len(string(x))`, `if(c, len(x), n)`, `[n, n]`, `{a: n}.a`, `isset(["k": n], s)`, `!c`, `c && n > 0`, `len(x) == n`, `string(len(x))`} {
+		for _, envs := range [][2]map[string]interface{}{{envA, envB}, {envB, envA}, {envA, envC}, {envC, envA}, {envA, envA}} {
+			for kind := 0; kind < 3; kind++ {
+				var first, second, fresh, dump0, dump1 string
+				pan, msg := protect(func() {
+					mk := func() *yae.Expr {
+						e := yae.NewExpr()
+						switch kind {
+						case 1:
+							e.UseClosureCompiler()
+						case 2:
+							e.UseCompiler(interp.Interp)
+						}
+						return e
+					}
+					runTree := func(e *yae.Expr, tree ast.Expr, env map[string]interface{}) (out string) {
+						defer func() {
+							if x := recover(); x != nil {
+								out = "error"
+							}
+						}()
+						te, err := conv.TypeEnvOf(env)
+						if err != nil {
+							return "env-error"
+						}
+						cl := e.CompileExpr(tree, te)
+						ve, _ := conv.ValEnvOf(env)
+						v := cl(ve)
+						return v.Type.String() + ":" + v.String()
+					}
+					e := mk()
+					tree := e.Parse(src)
+					dump0 = reflectDump(tree)
+					first = runTree(e, tree, envs[0])
+					dump1 = reflectDump(tree)
+					second = runTree(e, tree, envs[1])
+					e2 := mk()
+					fresh = runTree(e2, e2.Parse(src), envs[1])
+				})
+				if pan {
+					r.Count("reuse:panic:" + firstLine(msg)[:12])
+					continue
+				}
+				r.Count("parse-once-compile-twice histories")
+				what := fmt.Sprintf("%q back end %d", src, kind)
+				if dump0 != dump1 {
+					r.Violate("source-tree-changed-by-compilation", what, fmt.Sprintf("the parsed tree differs after Desugar + Check: %s -> %s", trunc(dump0, 300), trunc(dump1, 300)))
+				}
+				if second != fresh {
+					r.Violate("reused-tree-differs-from-fresh-parse", what, fmt.Sprintf("second compilation of the same tree gives %s, a fresh parse gives %s (first compilation gave %s)", second, fresh, first))
+				}
+			}
+		}
+	}
+}
+
+// reflectDump prints every field of a tree (annotations included), following pointers, with a guard against cycles.
+func reflectDump(x interface{}) string {
+	var b strings.Builder
+	seen := map[uintptr]bool{}
+	var walk func(v reflect.Value, d int)
+	walk = func(v reflect.Value, d int) {
+		if d > 60 {
+			b.WriteString("<deep>")
+			return
+		}
+		switch v.Kind() {
+		case reflect.Ptr:
+			if v.IsNil() {
+				b.WriteString("nil")
+				return
+			}
+			if v.Type().String() == "*types.Type" {
+				b.WriteString("T<")
+				if v.CanInterface() {
+					b.WriteString(fmt.Sprint(v.Interface()))
+				} else {
+					b.WriteString("set")
+				}
+				b.WriteString(">")
+				return
+			}
+			if seen[v.Pointer()] {
+				b.WriteString("<again>")
+				return
+			}
+			seen[v.Pointer()] = true
+			b.WriteString("&")
+			walk(v.Elem(), d+1)
+		case reflect.Interface:
+			if v.IsNil() {
+				b.WriteString("nil")
+				return
+			}
+			walk(v.Elem(), d+1)
+		case reflect.Struct:
+			b.WriteString(v.Type().String() + "{")
+			for i := 0; i < v.NumField(); i++ {
+				b.WriteString(v.Type().Field(i).Name + ":")
+				walk(v.Field(i), d+1)
+				b.WriteString(" ")
+			}
+			b.WriteString("}")
+		case reflect.Slice, reflect.Array:
+			b.WriteString("[")
+			for i := 0; i < v.Len(); i++ {
+				walk(v.Index(i), d+1)
+				b.WriteString(" ")
+			}
+			b.WriteString("]")
+		case reflect.String:
+			b.WriteString(strconv.Quote(v.String()))
+		case reflect.Bool:
+			b.WriteString(fmt.Sprint(v.Bool()))
+		case reflect.Int, reflect.Int8, reflect.Int16, reflect.Int32, reflect.Int64:
+			b.WriteString(fmt.Sprint(v.Int()))
+		case reflect.Uint, reflect.Uint8, reflect.Uint16, reflect.Uint32, reflect.Uint64:
+			b.WriteString(fmt.Sprint(v.Uint()))
+		case reflect.Float32, reflect.Float64:
+			b.WriteString(fmt.Sprint(v.Float()))
+		case reflect.Func:
+			if v.IsNil() {
+				b.WriteString("nilfunc")
+			} else {
+				b.WriteString("func")
+			}
+		default:
+			b.WriteString(v.Kind().String())
+		}
+	}
+	walk(reflect.ValueOf(x), 0)
+	return b.String()
 }
